@@ -10,8 +10,11 @@ Deductive part:
   UtriangleQsparse and the dense forward / backward substitutions: shape-bounded symbolic proof
                (all entries, every branch) that T X = B when the regularisation is zero, and the
                accuracy of the regularisation separately; any number of right-hand sides.
-Hess_QR_ggivens is decided by the bounded stand-in only (fancy-index row rotations with an NRA-heavy
-generator).  Bounded stand-in: k = 1..4 (5), Hessenberg patterns, diagonal moduli 1e-6..1e6, 1-4 rhs."""
+  all-size proofs (ghost-function invariants, symbolic sizes): dense forward / backward substitution, UtriangleQsparse, and
+               Hess_QR_ggivens: the Givens sweep (rows of the stacked array rotated by M^H, R upper triangular), the accumulated
+               factor (columns rotated by the same M), the last-column rotation and the re-layout for (k+1) x k input, and the
+               matrix-level step lemma that turns these into  U R = H,  U^H U = I  (see hess_qr_sweep_all_sizes).
+Bounded stand-in: k = 1..4 (5), Hessenberg patterns, diagonal moduli 1e-6..1e6, 1-4 rhs."""
 from __future__ import annotations
 
 import itertools
@@ -296,8 +299,7 @@ def deductive(rep: Report, tier):
                          scope=f"shape-bounded(n={n}, right-hand sides={k}; all entries)", replay=replay_solves, timeout_s=60, site_obligations=False, algebra=True)
     dense_substitution_all_n(rep)
     utriangle_all_n(rep)
-    if tier == "thorough":
-        hess_qr_sweep_all_sizes(rep)      # nonlinear identities: minutes of solver time, thorough tier only
+    hess_qr_sweep_all_sizes(rep)          # nonlinear identities; ~100 s with cvc5 asked early (z3 needs its whole budget on them, cvc5 seconds)
     # regularisation size: 1 - theta <= 1e-30 / |t|^2
     d = z3.Real("d")
     v = smt.prove([d > 0], 1 - d / (d + z3.RealVal("1/1000000000000000000000000000000")) <= z3.RealVal("1/1000000000000000000000000000000") / d, 10)
@@ -645,8 +647,12 @@ def hess_qr_sweep_all_sizes(rep: Report):
     rotated), the loop invariant at step s is
         rows < s of Hq are RF,  row s is TS(s, .),  rows > s are still the input;   TS(s, c) = 0 and RF(r, c) = 0 left of the diagonal
     and each step is   [RF(s, c); TS(s+1, c)] = M^H [TS(s, c); H0(s+1, c)]   for c >= s, nothing else touched   (input assumed
-    upper Hessenberg).  Hence R is upper triangular after the sweep.  The accumulation of W (columns rotated by M) and the final
-    re-layout are decided by the bounded stand-in; W R = H and W unitary then follow step by step from  (W M)(M^H H) = W H."""
+    upper Hessenberg).  Hence R is upper triangular after the sweep.  The accumulated factor: with  p(i, r) = W[i,r] - W[i,m+r] i
+    - W[i,2m+r] j - W[i,3m+r] k  each step is  [p(i,s), p(i,s+1)] <- [p(i,s), p(i,s+1)] M  (same M), other columns untouched; i.e.
+    U' = U E,  X' = E^H X  with E = diag(I_s, M, I) unitary, so  U X = H  and  U^H U = I  are preserved (lemma hessqr.step_*).
+    For the property's (k+1) x k input the last-column rotation acts on a zero entry (identity) and the re-layout returns exactly
+    (U, R) = (p, swept array) in the column-block order A2A0123 reads  (case tail.k_plus_1_by_k).  Wider input (n > m) is outside
+    the contract: there only the last entry of the last row is rotated and U R != H (observed; not in the property's domain)."""
     from ..interp import LoopRule
     from ..rules import _set_whole
     from ..sym import PathAbort
@@ -691,13 +697,14 @@ def hess_qr_sweep_all_sizes(rep: Report):
 
         def havoc(self, it, fr, s_):
             c = cur()
-            if c.ghost.get("_havoc_kind") == "exhausted":
-                raise PathAbort("after the sweep: last-column rotation and re-layout are not part of this obligation")
+            if c.ghost.get("_havoc_kind") == "exhausted" and not getattr(self, "continue_after", False):
+                raise PathAbort("after the sweep: last-column rotation and re-layout are the business of the 'tail' case")
             m = fr.vars["m"]
             _set_whole(fr.vars["Hess"], closed(m, s_))
             tag = c.fresh_name("Wh")
             wf = z3.Function(tag, I_, I_, z3.RealSort())
             _set_whole(fr.vars["W"], lambda vi: SReal.mk(wf(zi(vi[0]), zi(vi[1]))))
+            c.ghost["W_head"] = wf
             c.ghost["step"] = s_
 
         def preserve(self, it, fr, s_):
@@ -758,6 +765,28 @@ def hess_qr_sweep_all_sizes(rep: Report):
                 want_s = closed(m, s_ + 1)((s_ + 1 + comp * m, s_))
                 c.require("inv.preserve", SBool.mk(SReal.lift(have_s) == SReal.lift(want_s)), "the sub-diagonal entry of column s is zero after the step", key=f"hessqr.sweep.inv.preserve.subdiag.c{comp}", timeout_s=60)
 
+            # (4) the accumulated factor: with  p(i, r) = W[i, r] - W[i, m+r] i - W[i, 2m+r] j - W[i, 3m+r] k  (row i of the quaternion matrix U
+            #     that the re-layout returns) the step is   [p(i, s), p(i, s+1)]  <-  [p(i, s), p(i, s+1)] M   (columns s, s+1 rotated on the right
+            #     by the SAME M whose conjugate transpose rotates rows s, s+1 of the Hessenberg array), every other column untouched.
+            #     Together with (1)-(3):  U' = U E,  X' = E^H X  with E = diag(I_s, M, I)  unitary, hence  U' X' = U X  and U' stays unitary
+            #     (lemma C16.lemma.hessqr.step_preserves_product).
+            Wn, wf = fr.vars["W"], g["W_head"]
+            (ri,) = ix.fresh_indices(c, [m], "wr")
+
+            def p_old(r):
+                return ix.QScal(SReal.mk(wf(zi(ri), zi(r))), -SReal.mk(wf(zi(ri), zi(m + r))), -SReal.mk(wf(zi(ri), zi(2 * m + r))), -SReal.mk(wf(zi(ri), zi(3 * m + r))))
+            for wcol in (0, 1):
+                want = p_old(s_) * M[0][wcol] + p_old(s_ + 1) * M[1][wcol]
+                signs = (1, -1, -1, -1)
+                for comp in range(4):
+                    have = Wn.at(ri, s_ + wcol + comp * m)
+                    c.require("step", SBool.mk(SReal.lift(have) * signs[comp] == SReal.lift(want.c[comp])),
+                              f"component {comp} of column s+{wcol} of the accumulated factor is that of [p(i,s), p(i,s+1)] M", key=f"hessqr.sweep.step.W_rotated.c{comp}.col{wcol}", timeout_s=60)
+            (rj, cj) = ix.fresh_indices(c, [m, 4 * m], "we")
+            untouched_w = sand(*[snot(SBool.mk(zi(cj) == zi(s_ + w_ + k_ * m))) for w_ in (0, 1) for k_ in range(4)])
+            c.require("inv.preserve", sor(snot(untouched_w), SBool.mk(SReal.lift(Wn.at(rj, cj)) == wf(zi(rj), zi(cj)))),
+                      "columns of the accumulated factor other than s, s+1 (in every component block) are not written", key="hessqr.sweep.inv.preserve.W_frame", timeout_s=60)
+
     def k_ggivens(I, args, kwargs):
         x1, x2 = args
         c = cur()
@@ -784,12 +813,71 @@ def hess_qr_sweep_all_sizes(rep: Report):
     from .c01 import dims
     lib = Library("idx")
     n0 = len(rep.obligations)
-    run_case(rep, P, QN, "sweep.all_sizes", setup, post, lib=lib, contracts={U + "ggivens": k_ggivens}, loop_rules={(QN, 0): Sweep()},
-             clauses=[], replay=replay_solves, timeout_s=120, max_paths=200)
+    staged, smt.CVC5_FIRST_AFTER = smt.CVC5_FIRST_AFTER, 3.0
+    try:
+        run_case(rep, P, QN, "sweep.all_sizes", setup, post, lib=lib, contracts={U + "ggivens": k_ggivens}, loop_rules={(QN, 0): Sweep()},
+                 clauses=[], replay=replay_solves, timeout_s=120, max_paths=200)
+    finally:
+        smt.CVC5_FIRST_AFTER = staged
     got = {o.id for o in rep.obligations[n0:]}
     for need in ("hessqr.sweep.step.rotated.c0.r0", "hessqr.sweep.step.rotated.c3.r1", "hessqr.sweep.inv.preserve.frame", "hessqr.sweep.step.rotation_built_from_column_s"):
         if not any(need in i for i in got):
             rep.add(Obligation(f"{P}.Hess_QR_ggivens.sweep.{need}.reached", QN, "all-shapes", smt.UNDECIDED, "none", 0.0, {"reason": "obligation was not generated (vacuity guard)"}))
+
+
+    # ---- after the sweep, (k+1) x k input (the property's domain, n = m - 1): the last-column rotation and the re-layout
+    #      state after the loop = the sweep invariant at s = m - 1 (rows < m - 1 final, row m - 1 rotated: zero in every column), W arbitrary
+    tail_rule = Sweep()
+    tail_rule.continue_after = True
+
+    def setup_tail(I, ctx):
+        (m,) = dims(ctx, "m")
+        ctx.assume(m >= 2, base=True)
+        Hs = ix.IArr.from_fn([4 * m, m - 1], closed(m, 0))
+        return [Hs], {}, (m, m - 1)
+
+    def post_tail(I, ctx, outcome, val, aux):
+        m, n = aux
+        if outcome != "return" or not (isinstance(val, tuple) and len(val) == 2 and all(isinstance(v, ix.IArr) for v in val)):
+            return [("returns_pair", False)] if outcome == "return" else []
+        Wf, Hf = val
+        wf = ctx.ghost["W_head"]
+        out = [("returns_pair", True), ("shapes", sand(Wf.shape[0] == m, Wf.shape[1] == 4 * m, Hf.shape[0] == m, Hf.shape[1] == 4 * n))]
+        (i, r) = ix.fresh_indices(ctx, [m, m], "u")
+        w = lambda a, b: SReal.mk(wf(zi(a), zi(b)))
+        # read through A2A0123 (column blocks [A0 A2 A1 A3]) the first factor is  U(i, r) = p(i, r) = W[i,r] - W[i,m+r] i - W[i,2m+r] j - W[i,3m+r] k  of the sweep's final W
+        out.append(("U_is_the_accumulated_factor_p", sand(ix.scal_eq(Wf.at(i, r), w(i, r)), ix.scal_eq(Wf.at(i, 2 * m + r), -w(i, m + r)),
+                                                         ix.scal_eq(Wf.at(i, m + r), -w(i, 2 * m + r)), ix.scal_eq(Wf.at(i, 3 * m + r), -w(i, 3 * m + r)))))
+        # ... and the second factor is the quaternion matrix of the swept array: R(r, c) = RF(r, c) for r < m - 1, last row zero
+        (rr, cc) = ix.fresh_indices(ctx, [m, n], "h")
+        want = ix.ite(rr < m - 1, rf(rr, cc), ix.QScal(Fraction(0)))
+        out.append(("R_is_the_swept_array_upper_triangular_with_zero_last_row",
+                    sand(ix.scal_eq(Hf.at(rr, cc), want.c[0]), ix.scal_eq(Hf.at(rr, 2 * n + cc), want.c[1]), ix.scal_eq(Hf.at(rr, n + cc), want.c[2]), ix.scal_eq(Hf.at(rr, 3 * n + cc), want.c[3]))))
+        return out
+    staged, smt.CVC5_FIRST_AFTER = smt.CVC5_FIRST_AFTER, 3.0
+    try:
+        run_case(rep, P, QN, "tail.k_plus_1_by_k", setup_tail, post_tail, lib=Library("idx"), contracts={U + "ggivens": k_ggivens}, loop_rules={(QN, 0): tail_rule},
+                 clauses=["returns_pair", "shapes", "U_is_the_accumulated_factor_p", "R_is_the_swept_array_upper_triangular_with_zero_last_row"],
+                 replay=replay_solves, timeout_s=60, max_paths=200, site_obligations=False)
+    finally:
+        smt.CVC5_FIRST_AFTER = staged
+    # ---- matrix-level step lemma: columns of U rotated by M, rows of X rotated by M^H, M unitary:  U X and U^H U are unchanged; hence U R = H, U unitary
+    with Ctx("C16.lemma.hessqr") as ctx:
+        from .. import nc as ncm
+        from ..nc import NC, Atom
+        ncm.reset_atoms()
+        (m,) = dims(ctx, "m")
+        (n,) = dims(ctx, "ncol")
+        Um = NC.atom(Atom("Uk", m, m, "orth", alg="H"))
+        Em = NC.atom(Atom("Ek", m, m, "orth", alg="H"))          # diag(I_s, M, I) with M unitary (C16.ggivens.* and the block-diagonal lemma of C09)
+        Xm = NC.atom(Atom("Xk", m, n, "gen", alg="H"))
+        st, be, sc, det = ncm.nc_equal_obligation((Um @ Em) @ (Em.star @ Xm), Um @ Xm, ctx.hyps())
+        rep.add(Obligation(f"{P}.lemma.hessqr.step_preserves_product", "spec", "all-shapes", st, be, sc, det, kind="lemma"))
+        st, be, sc, det = ncm.nc_equal_obligation((Um @ Em).star @ (Um @ Em), NC.eye(m), ctx.hyps())
+        rep.add(Obligation(f"{P}.lemma.hessqr.step_preserves_unitarity", "spec", "all-shapes", st, be, sc, det, kind="lemma"))
+        Gm = NC.atom(Atom("Gn", m, m, "gen", alg="H"))
+        st, _, _, _ = ncm.nc_equal_obligation((Um @ Gm) @ (Gm.star @ Xm), Um @ Xm, ctx.hyps())
+        rep.canary("C16.canary.hessqr_step_with_non_unitary_rotation", st == smt.REFUTED)
 
 
 def ssqrt_expr(vals):
